@@ -38,6 +38,7 @@ type State struct {
 	sg     map[string]uint8   // possible signs of an integer SSA value (by root key): 1 neg, 2 zero, 4 pos
 	dirty  map[string][]dirtyRec
 	fresh  map[ssa.Value]bool
+	marks  map[string]string // section id -> key of the lock held when its From event happened
 }
 
 // pfact is a fact about a location, owned by the function whose branch established it
@@ -49,7 +50,7 @@ type pfact struct {
 
 func newState() *State {
 	return &State{bf: map[ssa.Value]bool{}, nf: map[ssa.Value]bool{}, cells: map[string]int8{}, nz: map[string]pfact{},
-		nilp: map[string]pfact{}, sg: map[string]uint8{}, dirty: map[string][]dirtyRec{}, fresh: map[ssa.Value]bool{}}
+		nilp: map[string]pfact{}, sg: map[string]uint8{}, marks: map[string]string{}, dirty: map[string][]dirtyRec{}, fresh: map[ssa.Value]bool{}}
 }
 
 func (s *State) clone() *State {
@@ -64,6 +65,10 @@ func (s *State) clone() *State {
 		dirty:  make(map[string][]dirtyRec, len(s.dirty)),
 		fresh:  make(map[ssa.Value]bool, len(s.fresh)),
 		sg:     make(map[string]uint8, len(s.sg)),
+		marks:  make(map[string]string, len(s.marks)),
+	}
+	for k, v := range s.marks {
+		n.marks[k] = v
 	}
 	for k, v := range s.sg {
 		n.sg[k] = v
@@ -181,6 +186,14 @@ func (s *State) keyOf(facts bool) string {
 		}
 		sort.Strings(ks)
 		sb.WriteString("|X" + strings.Join(ks, ","))
+	}
+	{
+		ks := make([]string, 0, len(s.marks))
+		for k, v := range s.marks {
+			ks = append(ks, k+"@"+v)
+		}
+		sort.Strings(ks)
+		sb.WriteString("|M" + strings.Join(ks, ","))
 	}
 	{
 		ks := make([]string, 0, len(s.fresh))
